@@ -136,6 +136,7 @@ type seqState struct {
 	script  []string // when non-empty, the next steps are exactly these kinds, each on the most recent frame
 	dtHint   map[string]string // column -> the layout its date texts were written for
 	nilTag   bool // the script's column-wise Apply uses the callback that returns nil for a column starting with nil
+	nilFill  bool // the script's first FillNa fills with nil
 	negShift bool    // the script's shift moves rows up (negative periods)
 	lastBy  []string // the column list and direction of the last generated sort (reused by the script's "resort")
 	lastAsc bool
@@ -227,6 +228,9 @@ func (s *seqState) stepOnce() {
 	if len(s.script) > 0 {
 		kind, s.script = s.script[0], s.script[1:]
 		t = len(s.pool) - 1
+		if strings.HasSuffix(kind, "@0") { // … on the first frame of the pool (the source of what the script derived)
+			kind, t = strings.TrimSuffix(kind, "@0"), 0
+		}
 		if kind == "resort" {
 			kind, resort = "sort", s.lastBy != nil
 		}
@@ -641,6 +645,9 @@ func (s *seqState) stepOnce() {
 		status, _ = guard(func() error { return f.DropRow(i) })
 	case "fillna":
 		v := s.anyCell()
+		if s.nilFill && len(s.script) > 0 {
+			v = nil // "all fill values": nil replaces nil, the frame still has its gaps
+		}
 		if s.mode == "c15" && r.Chance(30) {
 			v = Pick(r, []any{0, -1, 7, int64(0), 0.0, "", false}) // the fill values people use; the kind given is the kind stored
 		}
@@ -691,7 +698,7 @@ func (s *seqState) stepOnce() {
 		e.Int(t)
 		e.Str(name)
 		status, _ = guard(func() error { return f.DropColumn(name) })
-	case "setcell":
+	case "setcell", "setnil":
 		ks := keysOf(f)
 		if len(ks) == 0 || n == 0 {
 			e.Tok("dropna")
@@ -702,6 +709,9 @@ func (s *seqState) stepOnce() {
 		name := Pick(r, ks)
 		i := r.Intn(n)
 		v := s.anyCell()
+		if kind == "setnil" {
+			v = nil
+		}
 		e.Tok("setcell")
 		e.Int(t)
 		e.Str(name)
@@ -1161,6 +1171,21 @@ func genSeq(r *Rng, mode string, steps int) *Enc {
 		// remembered from the first look must not survive the rename
 		last := map[string][]string{"c08": {"iloc", "multiselect", "qnames", "qrow"}, "c19": {"shift"}}[mode]
 		s.script = []string{Pick(r, []string{"qnames", "qrow", "qshape", last[0]}), "rename", Pick(r, last)}
+		if mode == "c08" && r.Chance(40) {
+			// select, edit the selection in place, then read the SOURCE: its rows are what they were
+			s.script = []string{Pick(r, []string{"multiselect", "multiselect", "iloc", "head", "filter"}),
+				Pick(r, []string{"droprow", "fillna", "appendrow", "dropna"}), Pick(r, []string{"qrow@0", "qshape@0", "qrow@0"})}
+		}
+		if steps < 3 {
+			steps = 3
+		}
+	case mode == "c15" && r.Intn(10) == 0:
+		// cleaning histories on ONE frame: whatever a first cleaning concluded must not be remembered by the next
+		if r.Bool() {
+			s.script, s.nilFill = []string{"fillna", "dropna"}, true
+		} else {
+			s.script = []string{Pick(r, []string{"dropna", "fillna"}), "setnil", Pick(r, []string{"dropna", "fillna"})}
+		}
 		if steps < 3 {
 			steps = 3
 		}
